@@ -771,10 +771,11 @@ def replay(rp, prop, path):
             got = run_cli(case)
             res = glue_oracle(case, got)
             model = under_generated_glue([case])[0]
+            doc = documented(case)
         print('argv :', ' '.join(argv_of(case)))
         print('dump :', case['kind'], len(case['dump']) // 2, 'bytes')
         print('tool :', got[:1500])
-        print('API under the documented glue:', documented(case)[:1500])
+        print('API under the documented glue:', doc[:1500])
         print('API under the translated glue:', (model or 'unsupported')[:1500])
     else:
         line_fn, impl_fn, oracle_fn = {
